@@ -6,11 +6,17 @@ CONSTANTS
   Kinds = {"single"}
   MaxCredit = 3
   MaxTick = 2
+  NP = 1
+  Limit = 1
+  MaxFail = 1
   MaxAbort = 1
 SPECIFICATION SpecConn
 INVARIANT EachResponseOnce
 INVARIANT IdQuestionPreserved
 INVARIANT Framed
+INVARIANT NumConnsExact
 PROPERTY OthersUnaffected
 PROPERTY ClosedFinal
+PROPERTY RefusedOnlyAtLimit
+PROPERTY TornIsLast
 CHECK_DEADLOCK FALSE
